@@ -10,6 +10,7 @@ use crate::util::*;
 use crate::with_d;
 use easy_ml::matrices::iterators as mi;
 use easy_ml::matrices::iterators::WithIndex;
+use easy_ml::differentiation::{Record, RecordMatrix, RecordTensor};
 use easy_ml::numeric::ZeroOne;
 use easy_ml::matrices::views::{
     IndexRange as MIndexRange, MatrixMut, MatrixRange, MatrixRef, MatrixReverse, MatrixView, Reverse,
@@ -356,11 +357,28 @@ fn drive<I: ExactSizeIterator>(
     recs.join(";")
 }
 
-/// `k` calls on the with-index iterator, then `WithIndex::source()` hands back the wrapped
-/// iterator, which serves the remaining `n - k` calls
+/// where the with-index wrapper is put on or taken off in the middle of an iteration
+#[derive(Clone, Copy)]
+enum Phase {
+    /// `k` calls on the with-index iterator, then `WithIndex::source()` hands back the wrapped
+    /// iterator, which serves the remaining calls
+    Split(usize),
+    /// `k` calls on the plain iterator, then it is converted (`with_index()`, `WithIndex::from`,
+    /// `.into()`) and the with-index iterator serves the remaining calls
+    Conv(usize),
+}
+
+fn phase_of(op: &Op) -> Phase {
+    match op.conv {
+        Some(k) => Phase::Conv(k),
+        None => Phase::Split(op.split.unwrap_or(0)),
+    }
+}
+
 fn drive_split<I: ExactSizeIterator>(
-    make: impl FnOnce() -> WithIndex<I>,
-    k: usize,
+    make: impl FnOnce() -> I,
+    to_wi: impl FnOnce(I) -> WithIndex<I>,
+    phase: Phase,
     n: usize,
     show_wi: impl FnMut(<WithIndex<I> as Iterator>::Item) -> String,
     show: impl FnMut(I::Item) -> String,
@@ -368,15 +386,36 @@ fn drive_split<I: ExactSizeIterator>(
 where
     WithIndex<I>: ExactSizeIterator,
 {
-    let mut w = match catch(make) {
-        Ok(w) => w,
-        Err(e) => return panic_str(e),
-    };
     let mut recs: Vec<String> = vec![];
-    let k = std::cmp::min(k, n);
-    if records(&mut w, k, show_wi, &mut recs) {
-        let mut inner: I = w.source();
-        records(&mut inner, n - k, show, &mut recs);
+    match phase {
+        Phase::Split(k) => {
+            let mut w = match catch(move || to_wi(make())) {
+                Ok(w) => w,
+                Err(e) => return panic_str(e),
+            };
+            let k = std::cmp::min(k, n);
+            if records(&mut w, k, show_wi, &mut recs) {
+                let mut inner: I = w.source();
+                records(&mut inner, n - k, show, &mut recs);
+            }
+        }
+        Phase::Conv(k) => {
+            let mut it = match catch(make) {
+                Ok(it) => it,
+                Err(e) => return panic_str(e),
+            };
+            let k = std::cmp::min(k, n);
+            if records(&mut it, k, show, &mut recs) {
+                let mut w = match catch(move || to_wi(it)) {
+                    Ok(w) => w,
+                    Err(e) => {
+                        recs.push(panic_str(e));
+                        return recs.join(";");
+                    }
+                };
+                records(&mut w, n - k, show_wi, &mut recs);
+            }
+        }
     }
     recs.join(";")
 }
@@ -559,31 +598,34 @@ fn run_owned_wi<E: OwnElem, X: ShowIdx, I: ExactSizeIterator<Item = (X, E)>>(
 }
 
 fn run_copy_split<X: ShowIdx, I: ExactSizeIterator<Item = u64>>(
-    make: impl FnOnce() -> WithIndex<I>,
-    k: usize,
+    make: impl FnOnce() -> I,
+    to_wi: impl FnOnce(I) -> WithIndex<I>,
+    k: Phase,
     n: usize,
 ) -> String
 where
     WithIndex<I>: ExactSizeIterator<Item = (X, u64)>,
 {
-    drive_split(make, k, n, |(i, v)| format!("{}@{}", v, i.show_idx()), |v| v.to_string())
+    drive_split(make, to_wi, k, n, |(i, v)| format!("{}@{}", v, i.show_idx()), |v| v.to_string())
 }
 
 fn run_ref_split<'a, X: ShowIdx, I: ExactSizeIterator<Item = &'a u64>>(
-    make: impl FnOnce() -> WithIndex<I>,
-    k: usize,
+    make: impl FnOnce() -> I,
+    to_wi: impl FnOnce(I) -> WithIndex<I>,
+    k: Phase,
     n: usize,
     base: Base,
 ) -> String
 where
     WithIndex<I>: ExactSizeIterator<Item = (X, &'a u64)>,
 {
-    drive_split(make, k, n, |(i, r)| format!("{}@{}", base.cell(r), i.show_idx()), |r| base.cell(r))
+    drive_split(make, to_wi, k, n, |(i, r)| format!("{}@{}", base.cell(r), i.show_idx()), |r| base.cell(r))
 }
 
 fn run_mut_split<'a, X: ShowIdx, I: ExactSizeIterator<Item = &'a mut u64>>(
-    make: impl FnOnce() -> WithIndex<I>,
-    k: usize,
+    make: impl FnOnce() -> I,
+    to_wi: impl FnOnce(I) -> WithIndex<I>,
+    k: Phase,
     n: usize,
     base: Base,
 ) -> (String, Vec<usize>)
@@ -593,6 +635,7 @@ where
     let refs: RefCell<Vec<&'a mut u64>> = RefCell::new(vec![]);
     let s = drive_split(
         make,
+        to_wi,
         k,
         n,
         |(i, r)| {
@@ -610,8 +653,9 @@ where
 }
 
 fn run_owned_split<E: OwnElem, X: ShowIdx, I: ExactSizeIterator<Item = E>>(
-    make: impl FnOnce() -> WithIndex<I>,
-    k: usize,
+    make: impl FnOnce() -> I,
+    to_wi: impl FnOnce(I) -> WithIndex<I>,
+    k: Phase,
     n: usize,
 ) -> (String, Vec<E>)
 where
@@ -620,6 +664,7 @@ where
     let moved: RefCell<Vec<E>> = RefCell::new(vec![]);
     let s = drive_split(
         make,
+        to_wi,
         k,
         n,
         |(i, v)| {
@@ -673,7 +718,11 @@ macro_rules! own {
 
 macro_rules! wi {
     ($into:expr, $e:expr) => {
-        if $into { WithIndex::from($e) } else { $e.with_index() }
+        match $into {
+            0 => $e.with_index(),
+            1 => WithIndex::from($e),
+            _ => Into::<WithIndex<_>>::into($e),
+        }
     };
 }
 
@@ -1119,10 +1168,12 @@ struct Op<'a> {
     wi: bool,
     n: usize,
     via: &'a str,
-    /// make with-index iterators through `From`/`into()` instead of `with_index()`
-    into: bool,
+    /// how with-index iterators are made: 0 `with_index()`, 1 `WithIndex::from(it)`, 2 `it.into()`
+    into: u8,
     /// after this many with-index calls take the wrapped iterator back with `source()`
     split: Option<usize>,
+    /// after this many plain calls convert the iterator into its with-index form
+    conv: Option<usize>,
     /// `consume` operations: the std consumer applied after `after` plain calls
     m: &'a str,
     after: usize,
@@ -1137,8 +1188,13 @@ fn parse_op<'a>(op: &'a str, rest: &[&'a str]) -> Op<'a> {
         wi: opt_arg("wi", rest) == Some("1"),
         n: opt_arg("n", rest).map(|x| x.parse().unwrap()).unwrap_or(0),
         via: opt_arg("via", rest).unwrap_or("boxed"),
-        into: opt_arg("wvia", rest) == Some("into"),
+        into: match opt_arg("wvia", rest) {
+            Some("into") => 1,
+            Some("dotinto") => 2,
+            _ => 0,
+        },
         split: opt_arg("split", rest).map(|x| x.parse().unwrap()),
+        conv: opt_arg("conv", rest).map(|x| x.parse().unwrap()),
         m: opt_arg("m", rest).unwrap_or("count"),
         after: opt_arg("after", rest).map(|x| x.parse().unwrap()).unwrap_or(0),
     }
@@ -1451,20 +1507,20 @@ fn boxed_u64<const D: usize>(
     let mut src = src;
     let n = op.n;
     let into = op.into;
-    let split = op.split.unwrap_or(0);
+    let split = phase_of(op);
     let mut written: Option<Vec<usize>> = None;
     let (via, f, wi) = (op.via, op.f, op.wi);
     let recs: String = match (via, f, wi) {
         // with index for `split` calls, then `source()` and on without index
-        ("boxed", "copy", true) if op.split.is_some() => {
-            run_copy_split(|| wi!(into, TensorIterator::from(&src)), split, n)
+        ("boxed", "copy", true) if op.split.is_some() || op.conv.is_some() => {
+            run_copy_split(|| TensorIterator::from(&src), |it| wi!(into, it), split, n)
         }
-        ("boxed", "ref", true) if op.split.is_some() => {
-            run_ref_split(|| wi!(into, TensorReferenceIterator::from(&src)), split, n, base)
+        ("boxed", "ref", true) if op.split.is_some() || op.conv.is_some() => {
+            run_ref_split(|| TensorReferenceIterator::from(&src), |it| wi!(into, it), split, n, base)
         }
-        ("boxed", "mut", true) if op.split.is_some() => {
+        ("boxed", "mut", true) if op.split.is_some() || op.conv.is_some() => {
             let (s, w) = run_mut_split(
-                || wi!(into, TensorReferenceMutIterator::from(&mut src)),
+                || TensorReferenceMutIterator::from(&mut src), |it| wi!(into, it),
                 split,
                 n,
                 base,
@@ -1535,7 +1591,7 @@ fn tensor_u64<const D: usize>(
     let base = Base::single(base_ptr);
     let n = op.n;
     let into = op.into;
-    let split = op.split.unwrap_or(0);
+    let split = phase_of(op);
     let mut written: Option<Vec<usize>> = None;
     let recs: String = {
         // Safety: `t` and everything built from it die at the end of this block
@@ -1649,15 +1705,15 @@ fn boxed_owned<E: OwnElem, const D: usize>(src: BoxT<E, D>, op: &Op) -> Result<(
     }
     let n = op.n;
     let into = op.into;
-    let split = op.split.unwrap_or(0);
+    let split = phase_of(op);
     let (via, numeric) = match op.via.strip_suffix("_numeric") {
         Some(v) => (v, true),
         None => (op.via, false),
     };
     let wi = op.wi;
     Ok(match (via, wi) {
-        ("boxed", true) if op.split.is_some() => {
-            run_owned_split(move || wi!(into, own!(numeric, TensorOwnedIterator, src)), split, n)
+        ("boxed", true) if op.split.is_some() || op.conv.is_some() => {
+            run_owned_split(move || own!(numeric, TensorOwnedIterator, src), |it| wi!(into, it), split, n)
         }
         ("boxed", false) => run_owned(move || own!(numeric, TensorOwnedIterator, src), n),
         ("boxed", true) => run_owned_wi(move || wi!(into, own!(numeric, TensorOwnedIterator, src)), n),
@@ -1689,7 +1745,7 @@ fn tensor_owned<E: OwnElem, const D: usize>(
     };
     let n = op.n;
     let into = op.into;
-    let split = op.split.unwrap_or(0);
+    let split = phase_of(op);
     let (op_via, numeric) = match op.via.strip_suffix("_numeric") {
         Some(v) => (v, true),
         None => (op.via, false),
@@ -2028,12 +2084,26 @@ fn parse_root(toks: &[&str]) -> (Root, Vec<TAd>) {
     (mk(pre), post)
 }
 
-fn shape_iter<const D: usize>(lens: &[usize], n: usize) -> String {
+fn shape_iter<const D: usize>(lens: &[usize], n: usize, clone_at: Option<usize>) -> String {
     // the names play no role in iteration: take them from the adversarial list
     let off: usize = lens.iter().fold(0usize, |a, l| a.wrapping_add(*l)) % 20;
     let shape: [(&'static str, usize); D] =
         std::array::from_fn(|d| (intern(ADVERSARIAL_NAMES[(off + d) % 20]), lens[d]));
-    let recs = drive(|| ShapeIterator::from(shape), n, |i| i.show_idx());
+    let recs = match clone_at {
+        None => drive(|| ShapeIterator::from(shape), n, |i| i.show_idx()),
+        Some(k) => {
+            // `Clone`: after k calls the copy and the original both go on from item k
+            let mut it = ShapeIterator::from(shape);
+            let mut first = vec![];
+            let k = std::cmp::min(k, n);
+            records(&mut it, k, |i: [usize; D]| i.show_idx(), &mut first);
+            let mut copy = it.clone();
+            let (mut a, mut b) = (vec![], vec![]);
+            records(&mut copy, n - k, |i: [usize; D]| i.show_idx(), &mut a);
+            records(&mut it, n - k, |i: [usize; D]| i.show_idx(), &mut b);
+            format!("{} | clone:{} | original:{}", first.join(";"), a.join(";"), b.join(";"))
+        }
+    };
     let mut total: u128 = 1;
     for &l in lens {
         total = total.saturating_mul(l as u128);
@@ -2045,6 +2115,65 @@ fn shape_iter<const D: usize>(lens: &[usize], n: usize) -> String {
         format!("unrepresentable-length ## {}", recs)
     } else {
         recs
+    }
+}
+
+
+// ---------------------------------------------------------------------------------------------
+// AsRecords: the record containers' iterators wrap TensorIterator / RowMajorIterator /
+// ColumnMajorIterator, and their `with_index()` converts the wrapped iterator with `.into()`
+// ---------------------------------------------------------------------------------------------
+
+fn show_record(r: Record<f64>) -> String {
+    (r.number as u64).to_string()
+}
+
+/// plain, with index, or (`conv=<k>`) converted after k calls — `via=asrecords`, copy flavour
+macro_rules! asrecords_run {
+    ($op:expr, $make:expr) => {{
+        let n = $op.n;
+        match ($op.conv, $op.wi) {
+            (Some(k), _) => {
+                let mut it = $make;
+                let mut recs = vec![];
+                let k = std::cmp::min(k, n);
+                if records(&mut it, k, show_record, &mut recs) {
+                    let into = $op.into;
+                    match catch(move || if into == 0 { it.with_index() } else { WithIndex::from(it) }) {
+                        Ok(mut w) => {
+                            records(&mut w, n - k, |(i, r)| format!("{}@{}", show_record(r), i.show_idx()), &mut recs);
+                        }
+                        Err(e) => recs.push(panic_str(e)),
+                    }
+                }
+                recs.join(";")
+            }
+            (None, true) => {
+                drive(|| $make.with_index(), n, |(i, r)| format!("{}@{}", show_record(r), i.show_idx()))
+            }
+            (None, false) => drive(|| $make, n, show_record),
+        }
+    }};
+}
+
+fn tensor_asrecords<const D: usize>(shape: &[(&'static str, usize)], op: &Op) -> String {
+    snapshot_clear();
+    let shape: [(&'static str, usize); D] = shape_array(shape);
+    let total: usize = shape.iter().map(|d| d.1).product();
+    let t: Tensor<f64, D> = Tensor::from(shape, (0..total).map(|i| val_of(i) as f64).collect());
+    let rt = RecordTensor::constants(t);
+    asrecords_run!(op, rt.iter_as_records())
+}
+
+fn matrix_asrecords(rows: usize, cols: usize, op: &Op) -> String {
+    snapshot_clear();
+    let m: Matrix<f64> =
+        Matrix::from_flat_row_major((rows, cols), (0..rows * cols).map(|i| val_of(i) as f64).collect());
+    let rm = RecordMatrix::constants(m);
+    match op.kind {
+        "rowmajor" => asrecords_run!(op, rm.iter_row_major_as_records()),
+        "colmajor" => asrecords_run!(op, rm.iter_column_major_as_records()),
+        _ => "bad-op".into(),
     }
 }
 
@@ -2084,7 +2213,7 @@ fn matrix_u64(rows: usize, cols: usize, preps: &[MPrep], ads: &[MAd], op: &Op) -
     let base = Base::single(base_ptr);
     let a = op.a;
     let into = op.into;
-    let split = op.split.unwrap_or(0);
+    let split = phase_of(op);
     let n = op.n;
     let mut written: Option<Vec<usize>> = None;
     let recs: String = {
@@ -2110,30 +2239,30 @@ fn matrix_u64(rows: usize, cols: usize, preps: &[MPrep], ads: &[MAd], op: &Op) -
             (via, f) => {
                 let mut src = build_matrix(m, ads);
                 match (via, f) {
-                    ("from", "copy") if op.split.is_some() => match op.kind {
-                        "rowmajor" => run_copy_split(|| wi!(into, mi::RowMajorIterator::from(&src)), split, n),
-                        "colmajor" => run_copy_split(|| wi!(into, mi::ColumnMajorIterator::from(&src)), split, n),
+                    ("from", "copy") if op.split.is_some() || op.conv.is_some() => match op.kind {
+                        "rowmajor" => run_copy_split(|| mi::RowMajorIterator::from(&src), |it| wi!(into, it), split, n),
+                        "colmajor" => run_copy_split(|| mi::ColumnMajorIterator::from(&src), |it| wi!(into, it), split, n),
                         _ => return "bad-op".into(),
                     },
-                    ("from", "ref") if op.split.is_some() => match op.kind {
+                    ("from", "ref") if op.split.is_some() || op.conv.is_some() => match op.kind {
                         "rowmajor" => {
-                            run_ref_split(|| wi!(into, mi::RowMajorReferenceIterator::from(&src)), split, n, base)
+                            run_ref_split(|| mi::RowMajorReferenceIterator::from(&src), |it| wi!(into, it), split, n, base)
                         }
                         "colmajor" => {
-                            run_ref_split(|| wi!(into, mi::ColumnMajorReferenceIterator::from(&src)), split, n, base)
+                            run_ref_split(|| mi::ColumnMajorReferenceIterator::from(&src), |it| wi!(into, it), split, n, base)
                         }
                         _ => return "bad-op".into(),
                     },
-                    ("from", "mut") if op.split.is_some() => {
+                    ("from", "mut") if op.split.is_some() || op.conv.is_some() => {
                         let (s, w) = match op.kind {
                             "rowmajor" => run_mut_split(
-                                || wi!(into, mi::RowMajorReferenceMutIterator::from(&mut src)),
+                                || mi::RowMajorReferenceMutIterator::from(&mut src), |it| wi!(into, it),
                                 split,
                                 n,
                                 base,
                             ),
                             "colmajor" => run_mut_split(
-                                || wi!(into, mi::ColumnMajorReferenceMutIterator::from(&mut src)),
+                                || mi::ColumnMajorReferenceMutIterator::from(&mut src), |it| wi!(into, it),
                                 split,
                                 n,
                                 base,
@@ -2219,7 +2348,7 @@ fn matrix_owned<E: OwnElem>(
     };
     let n = op.n;
     let into = op.into;
-    let split = op.split.unwrap_or(0);
+    let split = phase_of(op);
     let numeric = op.via.ends_with("_numeric");
     if op.via == "matrix" {
         let m = leaf_m;
@@ -2242,11 +2371,11 @@ fn matrix_owned<E: OwnElem>(
             (consume_matrix_owned(src, op), vec![])
         } else {
         match (op.kind, op.wi) {
-            ("rowmajor", true) if op.split.is_some() => {
-                run_owned_split(move || wi!(into, own!(numeric, mi::RowMajorOwnedIterator, src)), split, n)
+            ("rowmajor", true) if op.split.is_some() || op.conv.is_some() => {
+                run_owned_split(move || own!(numeric, mi::RowMajorOwnedIterator, src), |it| wi!(into, it), split, n)
             }
-            ("colmajor", true) if op.split.is_some() => {
-                run_owned_split(move || wi!(into, own!(numeric, mi::ColumnMajorOwnedIterator, src)), split, n)
+            ("colmajor", true) if op.split.is_some() || op.conv.is_some() => {
+                run_owned_split(move || own!(numeric, mi::ColumnMajorOwnedIterator, src), |it| wi!(into, it), split, n)
             }
             ("rowmajor", false) => run_owned(move || own!(numeric, mi::RowMajorOwnedIterator, src), n),
             ("rowmajor", true) => run_owned_wi(move || wi!(into, own!(numeric, mi::RowMajorOwnedIterator, src)), n),
@@ -2364,7 +2493,10 @@ impl Runner {
                 let o = parse_op(op, rest);
                 match &self.case {
                     Case::None => "no-source".into(),
-                    Case::Shape(lens) => with_d!(lens.len(), D => shape_iter::<D>(lens, o.n)),
+                    Case::Shape(lens) => {
+                        let c = opt_arg("clone", rest).map(|x| x.parse::<usize>().unwrap());
+                        with_d!(lens.len(), D => shape_iter::<D>(lens, o.n, c))
+                    }
                     Case::Tensor(shape, preps, ads) => {
                         if o.f == "owned" || o.op == "left" {
                             if preps.iter().any(tprep_needs_clone) {
@@ -2375,6 +2507,8 @@ impl Runner {
                                 with_d!(shape.len(), D =>
                                     tensor_owned::<Dc, D>(shape, preps, ads, &o, prep_tensor_any))
                             }
+                        } else if o.via == "asrecords" {
+                            with_d!(shape.len(), D => tensor_asrecords::<D>(shape, &o))
                         } else {
                             with_d!(shape.len(), D => tensor_u64::<D>(shape, preps, ads, &o))
                         }
@@ -2393,6 +2527,8 @@ impl Runner {
                             } else {
                                 matrix_owned::<Dc>(*rows, *cols, preps, ads, &o, prep_matrix_any)
                             }
+                        } else if o.via == "asrecords" {
+                            matrix_asrecords(*rows, *cols, &o)
                         } else {
                             matrix_u64(*rows, *cols, preps, ads, &o)
                         }
@@ -2566,9 +2702,12 @@ fn tensor_vias(ads: &[TAd], f: &str) -> Vec<&'static str> {
 
 /// how the with-index iterator is made: `with_index()` or `From`/`into()`
 fn wvia(g: &mut Gen, wi: bool) -> &'static str {
-    if wi && g.rng.chance(1, 2) {
+    if wi && g.rng.chance(1, 3) {
         g.count("withindex.via=into");
         " wvia=into"
+    } else if wi && g.rng.chance(1, 2) {
+        g.count("withindex.via=dotinto");
+        " wvia=dotinto"
     } else {
         if wi {
             g.count("withindex.via=method");
@@ -2622,6 +2761,15 @@ fn emit_tensor_ops(g: &mut Gen, shape: &[(&'static str, usize)], ads: &[TAd], al
         let w = wvia(g, true);
         g.op(format!("iter f={} wi=1 split={} n={} via={}{}", f, k, total + 3, via, w));
         g.count(&format!("tensor.split.f={}", f));
+    }
+    // conversion of a partially consumed iterator into its with-index form
+    for _ in 0..(if all { 2 } else { 1 }) {
+        let f = *g.rng.pick(&FLAVOURS);
+        let k = g.rng.below(total + 3);
+        let via = if f == "owned" && g.rng.chance(1, 2) { "boxed_numeric" } else { "boxed" };
+        let w = wvia(g, true);
+        g.op(format!("iter f={} wi=1 conv={} n={} via={}{}", f, k, total + 3, via, w));
+        g.count(&format!("tensor.conv.f={}", f));
     }
     // std's consumers on top of `next`, after a prefix of plain calls
     let consumers = random_consumers(g, total, all);
@@ -2897,6 +3045,12 @@ fn emit_matrix_ops(g: &mut Gen, rows: usize, cols: usize, ads: &[MAd], all: bool
         let w = wvia(g, true);
         g.op(format!("iter k={} f={} wi=1 split={} n={} via={}{}", k, f, split, total + 3, via, w));
         g.count(&format!("matrix.split.f={}", f));
+        let f = *g.rng.pick(&FLAVOURS);
+        let conv = g.rng.below(total + 3);
+        let via = if f == "owned" && g.rng.chance(1, 2) { "from_numeric" } else { "from" };
+        let w = wvia(g, true);
+        g.op(format!("iter k={} f={} wi=1 conv={} n={} via={}{}", k, f, conv, total + 3, via, w));
+        g.count(&format!("matrix.conv.f={}", f));
     }
 }
 
@@ -3421,10 +3575,98 @@ fn gen_adaptor_pairs(g: &mut Gen) {
     }
 }
 
+
+/// The API surface of the two files, systematically: every iterator type × every way of
+/// making its with-index form (`with_index()`, `WithIndex::from`, `.into()`) × every state of
+/// the iterator at that moment (fresh, advanced by every k, exhausted), `WithIndex::source()`
+/// at every k, `ShapeIterator::clone` at every k, the `AsRecords` wrappers (whose `with_index`
+/// converts the wrapped iterator with `.into()`), over small containers and every kind of empty
+/// matrix view.
+fn gen_api_surface(g: &mut Gen) {
+    const ROUTES: [&str; 3] = ["", " wvia=into", " wvia=dotinto"];
+    // tensors: TensorIterator, TensorReferenceIterator, TensorReferenceMutIterator,
+    // TensorOwnedIterator (from / from_numeric)
+    for lens in [vec![], vec![3], vec![2, 2], vec![1, 2, 2]] {
+        let shape = named(g, &lens);
+        let total: usize = lens.iter().product();
+        g.op(format!("@ tensor {}", show_shape(&shape)));
+        g.count("api.tensor");
+        for (f, via) in [("copy", "boxed"), ("ref", "boxed"), ("mut", "boxed"), ("owned", "boxed"), ("owned", "boxed_numeric")] {
+            for route in ROUTES {
+                for k in 0..=total + 1 {
+                    g.op(format!("iter f={} wi=1 conv={} n={} via={}{}", f, k, total + 3, via, route));
+                    g.count("api.conv");
+                }
+            }
+            for k in 0..=total + 1 {
+                g.op(format!("iter f={} wi=1 split={} n={} via={}", f, k, total + 3, via));
+                g.count("api.split");
+            }
+        }
+        for route in ["", " wvia=into"] {
+            for k in 0..=total + 1 {
+                g.op(format!("iter f=copy wi=1 conv={} n={} via=asrecords{}", k, total + 3, route));
+                g.count("api.asrecords");
+            }
+        }
+        g.op(format!("iter f=copy wi=0 n={} via=asrecords", total + 3));
+        g.op(format!("iter f=copy wi=1 n={} via=asrecords", total + 3));
+    }
+    // matrices: Row/ColumnMajor × Iterator / ReferenceIterator / ReferenceMutIterator /
+    // OwnedIterator (from / from_numeric), over containers and empty views
+    let cases: Vec<(usize, usize, &str, usize, usize)> = vec![
+        (2, 2, "", 2, 2),
+        (1, 3, "", 1, 3),
+        (3, 1, "", 3, 1),
+        (2, 3, " range:0.0.0.3", 0, 3),
+        (2, 3, " range:0.2.1.0", 2, 0),
+        (2, 2, " range:2.1.2.1", 0, 0),
+    ];
+    for (rows, cols, view, vr, vc) in cases {
+        let total = vr * vc;
+        g.op(format!("@ matrix {} {}{}", rows, cols, view));
+        g.count("api.matrix");
+        for kind in ["rowmajor", "colmajor"] {
+            for (f, via) in [("copy", "from"), ("ref", "from"), ("mut", "from"), ("owned", "from"), ("owned", "from_numeric")] {
+                for route in ROUTES {
+                    for k in 0..=total + 1 {
+                        g.op(format!("iter k={} f={} wi=1 conv={} n={} via={}{}", kind, f, k, total + 3, via, route));
+                        g.count("api.conv");
+                    }
+                }
+                for k in 0..=total + 1 {
+                    g.op(format!("iter k={} f={} wi=1 split={} n={} via={}", kind, f, k, total + 3, via));
+                    g.count("api.split");
+                }
+            }
+            if view.is_empty() {
+                for route in ["", " wvia=into"] {
+                    for k in 0..=total + 1 {
+                        g.op(format!("iter k={} f=copy wi=1 conv={} n={} via=asrecords{}", kind, k, total + 3, route));
+                        g.count("api.asrecords");
+                    }
+                }
+                g.op(format!("iter k={} f=copy wi=0 n={} via=asrecords", kind, total + 3));
+                g.op(format!("iter k={} f=copy wi=1 n={} via=asrecords", kind, total + 3));
+            }
+        }
+    }
+    // ShapeIterator: Clone at every point
+    for lens in [vec![], vec![3], vec![2, 2], vec![2, 0], vec![1, 2, 2]] {
+        let total: usize = lens.iter().product();
+        g.op(format!("@ shape {}", show_usizes(&lens)));
+        for k in 0..=total + 1 {
+            g.op(format!("iter n={} clone={} via=shapeiter", total + 3, k));
+            g.count("api.clone");
+        }
+    }
+}
+
 pub fn gen(g: &mut Gen) {
     gen_shape_cases(g);
     gen_tensor_cases(g);
     gen_zip_cases(g);
+    gen_api_surface(g);
     gen_zip_forms_all_paths(g);
     gen_adaptor_pairs(g);
     gen_producer_cases(g);
